@@ -389,7 +389,8 @@ class Reconnect(Lifecycle):
 
         def fire_r(s):
             s.n1 = len(s.world.events)
-            s.c2 = s.world.call('connect', URL, transports=['polling'])
+            s.nws1 = len(s.world.server.wss)
+            s.c2 = s.world.call('connect', URL, transports=s.params.get('transports2', ['polling']))
 
         def en_o(s):
             return s.c2 is not None and s.t2 is None and any('sid=' not in r.url for r in s.world.server.pending_reqs('GET'))
@@ -423,6 +424,10 @@ class Reconnect(Lifecycle):
                       'was ended at t=%.3f with %r by leftovers of the first' % (self.t2, limit, early[0][2], early[0][1]), trigger=trig)
         if kinds.count('disconnect') != 1:
             self.flag('disconnect_count', 'second connection: events %r' % [e[:3] for e in ev2], trigger=trig)
+        if len(w.server.wss) > self.nws1:
+            # the second OPEN announced no upgrades
+            self.flag('upgrade_not_offered', 'the second connection opened a WebSocket although its OPEN packet announced upgrades=[] '
+                      '(the first connection had been offered websocket)', trigger=trig)
         stale = [(r.method, r.body) for r in w.server.reqs if r.method == 'POST' and 'sid=S2' in r.url]
         if stale:
             self.flag('stale_traffic_after_reconnect', 'the second connection POSTed %r although the application sent nothing' % (stale,), trigger=trig)
@@ -445,6 +450,9 @@ def reconnect_params():
             ps.append({'impl': impl, 'transports': ['websocket'], 'connect': '-', 'ws': ['accept', 'open'], 'polls': seq})
         ps.append({'impl': impl, 'transports': ['websocket'], 'connect': '-', 'ws': ['accept', 'open'], 'polls': ['msg'], 'app': ['disconnect']})
         ps.append({'impl': impl, 'transports': None, 'connect': 'open_up', 'ws': ['accept', 'probe_ok'], 'polls': ['close']})
+        # the first server offered an upgrade, the second does not: nothing of the first OPEN packet may survive
+        for beh in (['accept', 'probe_ok'], ['refuse'], ['accept', 'probe_wrong']):
+            ps.append({'impl': impl, 'transports': None, 'connect': 'open_up', 'ws': beh, 'polls': ['close'], 'transports2': None})
     return ps
 
 def scenario_class(p):
